@@ -709,7 +709,9 @@ theorem hashStep_fst (src : Content) (s : DState) (sumHead : Nat) :
     ∃ a b c r, (hashStep src s sumHead).1 = { s with β := a, β1 := b, β2 := c, rolling := r } := by
   unfold hashStep
   split
-  · exact ⟨_, _, _, s.rolling, rfl⟩
+  · split
+    · exact ⟨s.β, s.β1, s.β2, s.rolling, rfl⟩
+    · exact ⟨_, _, _, s.rolling, rfl⟩
   · exact ⟨_, _, _, _, rfl⟩
 
 theorem Mid.hash {P : Params} {olds : Array Content} {src : Content} {s : DState}
